@@ -31,6 +31,43 @@ def replay_inside(prop):
         return RP.write_and_run(prop, job.name + "." + ob["name"], hdr, ['"TasmanianSparseGrid.hpp"', '<cmath>'], REPLAY_INSIDE, "  main_replay();", lib="sg", timeout=60)
     return rp
 
+REPLAY_CHAIN = r'''
+/* On the real library: grids of four families with 2 outputs on the box [1,3] x [-2,6] (different rates per dimension); differentiate() against central
+ * differences of evaluate(), and the differentiation weights applied to the loaded values against differentiate(). */
+int main_replay(){
+  using namespace TasGrid;
+  int bad = 0;
+  const char *names[4] = {"Global", "Sequence", "LocalPolynomial", "Wavelet"};
+  for (int fam = 0; fam < 4; fam++) {
+    TasmanianSparseGrid g = fam == 0 ? makeGlobalGrid(2, 2, 3, type_level, rule_clenshawcurtis) : fam == 1 ? makeSequenceGrid(2, 2, 4, type_level, rule_leja)
+                          : fam == 2 ? makeLocalPolynomialGrid(2, 2, 3, 2, rule_localp) : makeWaveletGrid(2, 2, 2, 3);
+    g.setDomainTransform({1.0, -2.0}, {3.0, 6.0});
+    std::vector<double> p = g.getNeededPoints(); int n = g.getNumNeeded(); std::vector<double> v(2 * n);
+    for (int i = 0; i < n; i++) { v[2*i] = p[2*i] * p[2*i] * p[2*i+1] + 3.0 * p[2*i+1]; v[2*i+1] = std::exp(0.3 * p[2*i] - 0.1 * p[2*i+1]); }
+    g.loadNeededValues(v);
+    for (auto x : {std::vector<double>{1.7, 0.9}, std::vector<double>{2.3, -1.1}, std::vector<double>{1.2, 4.6}}) {
+      std::vector<double> jac; g.differentiate(x, jac);       /* outputs x dimensions */
+      std::vector<double> w = g.getDifferentiationWeights(x); /* points x dimensions */
+      const double h = 1.E-6; double worst_fd = 0, worst_w = 0;
+      for (int d = 0; d < 2; d++) {
+        std::vector<double> xp = x, xm = x, yp, ym; xp[d] += h; xm[d] -= h; g.evaluate(xp, yp); g.evaluate(xm, ym);
+        for (int k = 0; k < 2; k++) {
+          double fd = (yp[k] - ym[k]) / (2 * h), sw = 0; for (int i = 0; i < n; i++) sw += w[2*i+d] * v[2*i+k];
+          worst_fd = std::max(worst_fd, std::abs(fd - jac[2*k+d]) / (1.0 + std::abs(fd))); worst_w = std::max(worst_w, std::abs(sw - jac[2*k+d]) / (1.0 + std::abs(sw)));
+        } }
+      if (!(worst_fd < 1.E-4 && worst_w < 1.E-9)) { std::printf("%s at (%g, %g): differentiate vs central differences %.3e, differentiation weights vs differentiate %.3e\n", names[fam], x[0], x[1], worst_fd, worst_w); bad++; }
+    }
+  }
+  __CPROVER_assert(bad == 0, "C05 on a transformed domain differentiate() is the gradient of evaluate() and the differentiation weights reproduce it");
+  return 0;
+}
+'''
+def replay_chain(prop):
+    def rp(job, ob, vals, wd):
+        hdr = "Replay through the public API of the real library.\nproperty %s job %s\nobligation %s: %s\nat %s" % (prop, job.name, ob["name"], ob["description"], ob["location"])
+        return RP.write_and_run(prop, job.name + "." + ob["name"], hdr, ['"TasmanianSparseGrid.hpp"', '<cmath>', '<algorithm>'], REPLAY_CHAIN, "  main_replay();", lib="sg", timeout=60)
+    return rp
+
 def jobs(tier, seed, prop):
     R = X.Rules()
     enums = tables.cut_enum("TypeOneDRule", R)[0]
@@ -67,7 +104,7 @@ def jobs(tier, seed, prop):
     t2 = [t_ for k, a, t_ in cf.sections if k == "text2"][0]
     for fn in ("chain_differentiate", "chain_weights"):
         out.append(Job("transforms." + fn, '#include "tsg_shim.h"\n#include <stdlib.h>\nint tsg_exc;\n#define CHAIN %s\n#define CH_NO %d\n#line 1 "/verif/contracts/transforms.c"\n' % (fn, 2 if tier == "quick" else 3) + t2 + ct + cf.text(("harness",), ["h_chain"]),
-                       "h_chain", unwind=2 * 6 + 2, timeout=300 if tier == "quick" else 2400, backends=[[], ["--sat-solver", "cadical"]], functions=["%s:%d %s" % (f["file"], f["line"], f["name"]) for f in cinfo["functions"]], info=cinfo,
+                       "h_chain", unwind=2 * 6 + 2, timeout=300 if tier == "quick" else 2400, backends=[[], ["--sat-solver", "cadical"]], functions=["%s:%d %s" % (f["file"], f["line"], f["name"]) for f in cinfo["functions"]], info=cinfo, replay=replay_chain(prop),
                        bounded="dimensions <= 2, outputs / points <= 2 quick, 3 thorough (full unwinding); canary cells behind the array detect out-of-range writes",
                        assumed=["R13: the product is an uninterpreted deterministic function"],
                        label="%s: chain-rule scaling touches each entry once with the rate of its own dimension" % fn))
